@@ -8,7 +8,7 @@ walker does not know raises HarnessError.
 
 Dropped on purpose (argued in DESIGN.md 4.2): loggers, locks, the loop object itself,
 contextvars contexts, absolute virtual time, cached_property values of frozen
-dataclasses, empty default values of defaultdicts.
+dataclasses.
 """
 from __future__ import annotations
 
@@ -30,6 +30,9 @@ _PRIMS = (type(None), bool, int, float, str, bytes)
 
 
 class Canon:
+    abstract_sessions = True
+    abstract_incoming = False
+
     def __init__(self, loop: VLoop):
         self.loop = loop
         self.now = loop.time()
@@ -86,6 +89,22 @@ class Canon:
             return ("MOD", o.__name__)
         if isinstance(o, types.CoroutineType):
             return self._coro(o)
+        if type(o).__name__ == "_SessionStorage" and self.abstract_sessions:
+            # abstraction A1 (DESIGN 4.2): an outgoing counter far below the wrap influences the
+            # future only through monotone increase; the incoming table is kept exactly
+            i, new = self._ref(o)
+            if not new:
+                return ("R", i)
+            # both tables are only ever accessed by key, never iterated: sorted, defaults dropped
+            outg = tuple(sorted(((self.c(k), v[0], v[1] if v[1] >= 0x7FFF else "lt-half")
+                                 for k, v in o.outgoing.items() if v != (True, 1)), key=repr))
+            if self.abstract_incoming:
+                # harness-specific (C05/C06): the peer only ever sends 'previous id + 1' or restarts
+                # at 1, so the stored id influences nothing
+                inc = tuple(sorted(((self.c(k), v[0]) for k, v in o.incoming.items()), key=repr))
+            else:
+                inc = tuple(sorted(((self.c(k), self.c(v)) for k, v in o.incoming.items()), key=repr))
+            return ("SS", i, inc, outg)
         if hasattr(o, "_canon_"):
             i, new = self._ref(o)
             if not new:
@@ -105,12 +124,9 @@ class Canon:
             i, new = self._ref(o)
             if not new:
                 return ("R", i)
-            items = o.items()
-            if isinstance(o, collections.defaultdict) and o.default_factory is not None:
-                d = o.default_factory()
-                items = [(k, v) for k, v in items if not (type(v) is type(d) and v == d)]
-            # insertion order is kept: the library iterates its dicts
-            return ("M", i) + tuple((self.c(k), self.c(v)) for k, v in items)
+            # insertion order is kept (the library iterates its dicts), and so are the empty
+            # default values a defaultdict leaves behind: over-fine, but sound by construction
+            return ("M", i) + tuple((self.c(k), self.c(v)) for k, v in o.items())
         if isinstance(o, (list, collections.deque)):
             i, new = self._ref(o)
             if not new:
@@ -223,10 +239,17 @@ class Canon:
         parts = [("ROOT", self.c(r)) for r in roots]
         parts.append(("READY",) + tuple(self.c(h) for h in self.loop._ready if not h._cancelled))
         timers = [h for h in self.loop._scheduled if not h._cancelled]
-        # heap order is an implementation detail; the firing order is (when, insertion)
-        # -> sort by when, ties keep the heap's relative order of equal deadlines as
-        # CPython would pop them (heapq is not stable, so use the handle comparison)
-        timers = sorted(timers)
+        # abstraction A3: the pop order of timers with *equal* deadlines depends on the heap layout
+        # (history of cancelled entries); they are ordered canonically instead.  Argued sound
+        # because simultaneous timers of the library commute up to the order of callbacks for
+        # different keys, which no oracle observes; the dedupe validation would flag otherwise.
+        def tkey(h):
+            cb = h._callback
+            name = getattr(cb, "__qualname__", None) or type(cb).__name__
+            args = tuple(a if isinstance(a, (_PRIMS, tuple)) else (repr(a) if dataclasses.is_dataclass(a) else type(a).__name__)
+                         for a in (h._args or ()))
+            return (h._when, name, repr(args))
+        timers = sorted(timers, key=tkey)
         parts.append(("TIMERS",) + tuple(self.c(h) for h in timers))
         tasks = [t for t in asyncio.all_tasks(self.loop) if id(t) not in self.memo]
         if tasks:
